@@ -356,7 +356,11 @@ func gatedPhase(r *ev.Run, e *etcdx.Etcd) {
 		name    string
 		leader0 int
 		switchT int // -1 none
-	}{{"no-switch", 0, -1}, {"switch-0-to-1", 0, 1}, {"switch-1-to-0", 1, 0}}
+		// recreate: the record changes hands the way it really does: deleted (lease expiry / resign),
+		// then created by the next leader
+		recreate bool
+	}{{"no-switch", 0, -1, false}, {"switch-0-to-1", 0, 1, false}, {"switch-1-to-0", 1, 0, false},
+		{"recreate-0-to-1", 0, 1, true}, {"recreate-1-to-0", 1, 0, true}, {"recreate-0-to-0", 0, 0, true}}
 	// fault dimension: the window txn of one instance fails during the race, either without being
 	// sent or after it was applied ("Commit returned an error" tells the caller nothing about which).
 	type gfault struct {
@@ -369,6 +373,14 @@ func gatedPhase(r *ev.Run, e *etcdx.Etcd) {
 	cnt := 0
 	for _, v := range variants {
 		for _, gf := range faults {
+			if !r.Thorough() {
+				// quick: the complete fault dimension on two variants, a reduced one on the others
+				full := v.name == "no-switch" || v.name == "switch-0-to-1"
+				keep := full || gf.name == "none" || (v.name == "switch-1-to-0" && gf.name == "m0-fail-before")
+				if !keep || v.name == "recreate-1-to-0" {
+					continue
+				}
+			}
 			ex := &sched.Explorer{}
 			for {
 				ch := ex.Next()
@@ -405,6 +417,9 @@ func gatedPhase(r *ev.Run, e *etcdx.Etcd) {
 				ws := []func(){func() { w.alloc(0) }, func() { w.alloc(1) }}
 				if v.switchT >= 0 {
 					ws = append(ws, func() {
+						if v.recreate {
+							w.cl[2].Delete(context.Background(), path.Join(w.root, "leader"))
+						}
 						w.cl[2].Put(context.Background(), path.Join(w.root, "leader"), member(v.switchT))
 					})
 				}
@@ -584,7 +599,7 @@ func levelB(r *ev.Run, rng *rand.Rand) {
 
 func main() {
 	r := ev.New("C04", "exploration")
-	r.Rule("component level: 3-4 id allocator instances on one etcd, random histories over {alloc bursts around the 1000-id window, leader record switch, instance crash (+/- Rebase), Rebase, fail-before/lost-ack on the window txn or read}; distinct = history shape string; gated: every release order of two instances' Range->Txn pairs and a leader switch Put, crossed with {no fault, fail-before, lost-ack} on either instance's window txn (distinct = variant x fault x schedule); level B: AllocID/AskBatchSplit bursts on a real server with leader resignations")
+	r.Rule("component level: 3-4 id allocator instances on one etcd, random histories over {alloc bursts around the 1000-id window, leader record switch, instance crash (+/- Rebase), Rebase, fail-before/lost-ack on the window txn or read}; distinct = history shape string; gated: every release order of two instances' Range->Txn pairs and a leader switch (Put overwrite, or Delete then Put as after a lease expiry), crossed with {no fault, fail-before, lost-ack} on either instance's window txn (distinct = variant x fault x schedule); level B: AllocID/AskBatchSplit bursts on a real server with leader resignations")
 	r.Assume("leader record switched by writing the leader key through an un-instrumented observer client (component level) and by Member.ResetLeader (real server)")
 	r.Assume("64-bit wrap-around of alloc_id is not driven")
 	rng := rand.New(rand.NewSource(r.ShardSeed()))
